@@ -245,7 +245,7 @@ PROPS = {
                      "periodicInterruptedOne_complete", "indicator_complete", "eval_congr_term", "eval_congr_fml",
                      "C05_sound_core", "C05_feasible_iff", "envOf_schedOf_task", "envOf_schedOf_busy", "core_raw_sound",
                      "agree_own", "agree_own2", "envOf_indicator", "eval_congr2_term", "eval_congr2_fml", "reachable_wf",
-                     "InCoreS.of_reachable", "Exact_ex_inCoreS", "multi_extend", "C05_feasible_iff_multi", "Multi_ex_inCoreS",
+                     "InCoreS.of_reachable", "Exact_ex_inCoreS", "busy_le", "Exact_ex2_inCoreS", "multi_extend", "C05_feasible_iff_multi", "Multi_ex_inCoreS", "fragmentMultiB_sound",
                      "C05_feasible_iff_clean"],
         "modules": ["Exact", "Multi", "CleanSpec"],
         "profiles": [("all", 0.3), ("frag", 0.2), ("resc", 0.1), ("fol", 0.15), ("focus_resc", 0.15), ("focus_taskc", 0.1)],
@@ -434,7 +434,7 @@ PROPS = {
         "spec": None,
         "exact": True,
         "history_enc": True,
-        "run_profiles": ["frag", "frag", "taskc", "obj", "buffer", "resc", "focus_multiobj", "focus_multiobj"],
+        "run_profiles": ["frag", "frag", "taskc", "obj", "buffer", "resc", "focus_multiobj", "focus_multiobj", "focus_multiobj"],
         "run_needs_driver": True,
         "n_run": {"quick": 180, "thorough": 2000},
         "run_check": __import__("harness.c14", fromlist=["x"]).run_c14,
@@ -592,6 +592,8 @@ def check_script(driver, script, spec, cfg=None):
     # equality of the two assertion lists makes `C05_feasible_iff` / `C07_core_attainable` statements about the real code
     try:
         res["fragment"] = driver.send_multi("(fragment)")[1] == ["true"]
+        res["fragment_multi"] = sum(1 for d in script if d["op"] == "objective") >= 2 and \
+            driver.send_multi("(fragment-multi)")[1] == ["true"]
     except Exception:  # noqa: BLE001
         res["fragment"] = False
     # EVAL: the computable evaluator of the Lean development against z3's own evaluation of the real assertions
@@ -650,6 +652,9 @@ def run_chunk(args):
                 summary["dist"]["scripts_inside_exactness_fragment"] = summary["dist"].get("scripts_inside_exactness_fragment", 0) + 1
                 if not (r["decl_diffs"] or r["rel"] or r["oth"] or r["init_error"]):
                     summary["dist"]["…of_which_real_assertions_equal_model"] = summary["dist"].get("…of_which_real_assertions_equal_model", 0) + 1
+            if r.get("fragment_multi"):
+                summary["dist"]["scripts_with_several_objectives_inside_the_multi_objective_theorems"] = \
+                    summary["dist"].get("scripts_with_several_objectives_inside_the_multi_objective_theorems", 0) + 1
             ev = r.get("eval") or ([], 0)
             summary["dist"]["eval_formulas_evaluated"] = summary["dist"].get("eval_formulas_evaluated", 0) + ev[1]
             if ev[0]:
